@@ -136,6 +136,35 @@ SPEC = {
         "ASSUMPTIONS": ["object-identity model of field values (tree of objects with id()); which classes the clone copies is extracted from "
                         "the running code per value class (Bridge.Clone)"],
     },
+    "C07": {
+        "LEAN": {"modules": ["GfaProofs.Bridge.Regex", "GfaProofs.C07"], "support": ["GfaModel.Partial", "GfaModel.Field", "GfaProofs.Lemmas.Digits"],
+                 "theorems": ["Gfa.C07.decodeTag_no_foreign", "Gfa.C07.decodePos_no_foreign", "Gfa.C07.recordType_no_foreign",
+                              "Gfa.C07.parseLine_no_foreign", "Gfa.C07.pyInt_ok_of_accept", "Gfa.C07.unhexlify_ok_of_accept",
+                              "Gfa.C07.idx0_ok_of_accept", "Gfa.Bridge.Regex.re_i", "Gfa.Bridge.Regex.re_H", "Gfa.Bridge.Regex.re_A"]},
+        "ASSUMPTIONS": ["the partial Python primitives (int(), binascii.unhexlify, s[0], list[i], json.loads) are modelled by `Outcome` "
+                        "functions that fail exactly where CPython raises; the parsing pipeline (record type dispatch, positional "
+                        "fields, tags, decode after validation) is modelled, the graph operations and the API beyond parsing are "
+                        "decided by the oracle on the real library",
+                        "termination: every model function is total (structural / well-founded recursion accepted by the kernel); "
+                        "RecursionError of CPython on deeply nested JSON/groups is outside the model (known finding)"],
+    },
+    "C10": {
+        "LEAN": {"modules": ["GfaProofs.C10", "GfaProofs.Bridge.Cigar"], "support": ["GfaModel.Driver", "GfaModel.Levels", "GfaModel.Heap"],
+                 "theorems": ["Gfa.C10.step_frame", "Gfa.C10.queries_frame", "Gfa.C10.ask_twice", "Gfa.C10.swap_restore",
+                              "Gfa.C18.get_preserves_canon", "Gfa.C18.get_val_noop", "Gfa.C19.edit_frame",
+                              "Gfa.Bridge.Cigar.compl_pure", "Gfa.Bridge.Cigar.compl_reverses"]},
+        "ASSUMPTIONS": ["purity is by construction in the model; the tie is the correspondence: the library is asked its read-only calls "
+                        "(each twice) between two observations, the model is not, and the observations must stay equal"],
+    },
+    "C17": {
+        "LEAN": {"modules": ["GfaProofs.C17"], "support": ["GfaModel.Groups", "GfaModel.Graph", "GfaProofs.Lemmas.Closure", "GfaProofs.C02"],
+                 "theorems": ["Gfa.C17.induced_iff_reach", "Gfa.C17.induced_contains_group", "Gfa.C17.induced_closed", "Gfa.C17.induced_least",
+                              "Gfa.C17.induced_segments_iff", "Gfa.C17.induced_edges_iff", "Gfa.C17.mergeTags_spec",
+                              "Gfa.C17.mergeTags_conflict", "Gfa.C17.mergeGroup_conflict_atomic", "Gfa.C17.merged_items_concat",
+                              "Gfa.C17.merged_items_concat_O", "Gfa.Closure.lfp_iff"]},
+        "ASSUMPTIONS": ["captured path of ordered groups: not in the Lean model; decided by the oracle (independent walk search over the "
+                        "written text, two readings of nesting) on the real library"],
+    },
     "C20": {
         "LEAN": {"modules": ["GfaProofs.Bridge.Regex", "GfaProofs.C20", "GfaProofs.Bridge.Tags"],
                  "support": ["GfaModel.Field", "GfaProofs.Lemmas.RegexLang", "GfaProofs.Lemmas.Digits"],
